@@ -8,3 +8,5 @@ import Amqp.Gen.RecvCreditKernels
 import Amqp.RecvCredit
 import Amqp.Gen.FrameKernels
 import Amqp.Frame
+import Amqp.Gen.Codes
+import Amqp.Codec
